@@ -14,6 +14,8 @@ import numpy as np
 FN = {
     "sin": math.sin, "cos": math.cos, "tanh": math.tanh, "exp": math.exp, "sqrt": math.sqrt,
     "sinh": math.sinh, "cosh": math.cosh, "arctan": math.atan, "atan": math.atan, "log": math.log, "Abs": abs,
+    # for complex values (heterodyne outcomes)
+    "re": lambda z: complex(z).real, "im": lambda z: complex(z).imag, "conjugate": lambda z: complex(z).conjugate(), "arg": lambda z: cmath.phase(complex(z)),
 }
 
 
@@ -164,6 +166,23 @@ def make_op(o, prog, regs, numeric=None):
         S = seeded_symplectic(o["useed"], n_)
         V = S @ S.T * sf.hbar / 2
         return ops.Gaussian(V, r=np.array(o.get("means", [0.0] * (2 * n_))), **kw)
+    if name == "KetArr":
+        # array-valued parameter: a one-mode ket cos(t)|0> + sin(t)|1> (1-D array) or a two-mode ket cos(t)|01> + sin(t)|10> (2-D array) whose
+        # entries are expressions (object array) or, in the numeric twin, numbers
+        D, t = o["D"], o["p"][0]
+        ce, se = {"fn": "cos", "a": t}, {"fn": "sin", "a": t}
+        if numeric is None:
+            c_, s_ = sym(ce, prog, regs), sym(se, prog, regs)
+            symbolic = is_sym(t)
+        else:
+            c_, s_ = ev(ce, numeric.get("bind"), numeric.get("mvals")), ev(se, numeric.get("bind"), numeric.get("mvals"))
+            symbolic = False
+        arr = np.zeros((D,) * len(o["m"]), dtype=object if symbolic else float)
+        if len(o["m"]) == 1:
+            arr[0], arr[1] = c_, s_
+        else:
+            arr[0, 1], arr[1, 0] = c_, s_
+        return ops.Ket(arr)
     for k, v in list(kw.items()):
         if isinstance(v, list) and v and v[0] == "c":
             kw[k] = complex(v[1], v[2])
